@@ -22,10 +22,12 @@ Cat == <<
   [name |-> "RUPP", isstr |-> FALSE, sp |-> <<>>,    lang |-> Strs({3}),            fl |-> {}],
   [name |-> "RANYI", isstr |-> FALSE, sp |-> <<>>,   lang |-> Strs({1, 2, 3}),      fl |-> {"i"}],
   [name |-> "RAS",  isstr |-> FALSE, sp |-> <<>>,    lang |-> Strs({1}),            fl |-> {}],
-  [name |-> "RABQ", isstr |-> FALSE, sp |-> <<>>,    lang |-> {<<1>>, <<1, 2>>},    fl |-> {}]
+  [name |-> "RABQ", isstr |-> FALSE, sp |-> <<>>,    lang |-> {<<1>>, <<1, 2>>},    fl |-> {}],
+  \* a regexp no wider than the one-character strings: it sorts AFTER them (same width and pattern length, later name)
+  [name |-> "RDOT", isstr |-> FALSE, sp |-> <<>>,    lang |-> {<<1>>, <<2>>, <<3>>}, fl |-> {}]
 >>
 MaxW(l) == Max({Len(s) : s \in l})
-PLen(c) == IF c.isstr THEN Len(c.sp) ELSE (IF c.name = "RABQ" THEN 3 ELSE IF c.name = "RAS" THEN 2 ELSE 6)
+PLen(c) == IF c.isstr THEN Len(c.sp) ELSE (IF c.name = "RABQ" THEN 3 ELSE IF c.name = "RAS" THEN 2 ELSE IF c.name = "RDOT" THEN 1 ELSE 6)
 Rank == [n \in {Cat[i].name : i \in DOMAIN Cat} |-> CHOOSE i \in DOMAIN Cat : Cat[i].name = n]
 
 VARIABLES T, lang, text, among
@@ -52,14 +54,24 @@ Init ==
   /\ among \in SUBSET (DOMAIN T)
 Next == UNCHANGED vars
 Spec == Init /\ [][Next]_vars
+\* the same family with every priority 0 and nothing ignored (cheap enough for one more terminal)
+SpecFlat == (Init /\ \A i \in DOMAIN T : T[i].prio = 0 /\ ~T[i].ign) /\ [][Next]_vars
 
 Ord == Order(T, Rank)
 All == DOMAIN T
 L0 == Tiling(T, MT, Ord, All, 0, Len(text), <<>>)
 L1 == Lex1(T, MT, SMx, Ord, All, 0, Len(text), <<>>)
 
-L1IsL0UnlessSpelling ==
+\* the code's tiling is the documented one wherever the two token choices agree (the tilings are built from them)
+L1IsL0UnlessDeviation ==
   (\A p \in 0..(Len(text) - 1) : ~SpellingDeviation(T, MT, SMx, Ord, All, p)) => L1 = L0
+\* EXPECTED TO FAIL (model sensitivity, run by the harness): the deviations are real -
+\*  L1IsL0: KAI "a"i with RUPP /[A]+/ on "A" (spelling);
+\*  L1IsL0UnlessSpelling: KA "a", KAI "a"i, RDOT /./ on "a" - KA is embedded in RDOT and leaves the scanner, KAI answers
+\*  before RDOT is asked (known finding C07-embedded-order)
+L1IsL0 == L1 = L0
+L1IsL0UnlessSpelling ==
+  (\A p \in 0..(Len(text) - 1) : ~(SpellingDeviation(T, MT, SMx, Ord, All, p) /\ DevKind(T, MT, SMx, Ord, All, p) = "spelling")) => L1 = L0
 
 TilingCovers ==
   LET toks == L0[1] IN
@@ -73,6 +85,9 @@ TilingCovers ==
 \* regexp terminals do not overlap one another, as the property says.  Without the proviso it is false at three
 \* terminals:  KA "a", RLOW /[ab]+/, RANYI /[abA]+/i (RLOW first), text "aA", context {KA, RANYI}: the full lexer
 \* says KA RANYI, the restricted one RANYI("aA").
+\* With FOUR terminals the proviso is not enough either (EXPECTED TO FAIL under SpecFlat, MaxTerms = 4; known finding
+\* C07-keyword-lost-in-context): KA "a", KAB "ab", KB "b", RAS /a+/, text "ab", context {KA, KAB, KB}: the full lexer types "a"
+\* through RAS as KA, then KB; the restricted one has no RAS, so KA is not embedded there and KAB (wider) takes "ab".
 RegexpsDisjoint == \A r, s \in All : (r # s /\ ~T[r].isstr /\ ~T[s].isstr) => lang[r] \cap lang[s] = {}
 RestrictionRefines ==
   LET ctx == among \cup {i \in All : T[i].ign} IN
